@@ -219,7 +219,8 @@ class e2e_inconclusive(Exception):
 async def c15_case(backend, workers, seed, counters):
     viols, nontrivial, inconcl = [], [], []
     p1 = ref.key_from_seed("e2e-c15-p1")
-    srv = e2e.Server(backend=backend, workers=workers, overrides={"authentication": {"enabled": True, "actions": {"save": "w", "query": "a"}}})
+    srv = e2e.Server(backend=backend, workers=workers, overrides={"authentication": {"enabled": True, "actions": {"save": "w", "query": "a"}},
+                                                                  "service_privatekey": ref.key_from_seed("service").sk_hex})
     url = "ws://127.0.0.1:%d/" % srv.port
     srv.cfg["authentication"]["relay_urls"] = [url]
     import yaml
@@ -888,7 +889,5 @@ def run(coro_fn, *a, timeout=900, **k):
         return asyncio.run(main())
     except asyncio.TimeoutError:
         return [], [], ["e2e: watchdog (%d s) fired in %s" % (timeout, coro_fn.__name__)]
-    except RuntimeError as e:
-        if "server" in str(e):
-            return [], [], ["e2e: %s" % str(e)[:400]]
-        raise
+    except e2e.E2EError as e:
+        return [], [], ["e2e: %s" % str(e)[:400]]
